@@ -697,6 +697,8 @@ func genC08(c *Ctx) {
 			g.probeCorrupt(s, id, tree, enc, seenOfType[s.goType] <= 1)
 			t2 := time.Now()
 			g.probeWriterFails(s, id, val, enc)
+			g.probeWindow(s, id, val, enc)
+			g.probeReaderSizes(s, id, tree, enc)
 			c08T[0] += t1.Sub(t0)
 			c08T[1] += t2.Sub(t1)
 			c08T[2] += time.Since(t2)
@@ -1134,6 +1136,96 @@ func (g *c08Gen) probeCorrupt(s c08Spec, id string, tree *c08Gv, enc []byte, few
 				c.Probe("corrupt_length", id+" "+k.name+" "+e+" class="+w, c08MalformedKey(s, e, w, &f), detail)
 			}
 		}
+	}
+}
+
+const (
+	kWindow      = "C08/buffer.Buffer.Write/window-shorter-than-capacity-overrun-or-silent-truncation"
+	kPartialElem = "C08/buffer.ReadUintNSlice/partial-element-discarded"
+)
+
+// probeWindow: WriteTo into a buffer.Buffer built over a WINDOW of a larger allocation
+// (len < cap, e.g. pooled scratch memory). When the window is too short for the object the
+// write must fail, report at most the window length, and leave the memory beyond the window
+// untouched; a window of exactly the object size must succeed.
+func (g *c08Gen) probeWindow(s c08Spec, id string, val c08Obj, enc []byte) {
+	c := g.c
+	size := len(enc)
+	const spare, sentinel = 96, 0xA5
+	offs := g.offsets(size, c.Scale(120, 2000))
+	counts := map[string]int{}
+	first := map[string]int{}
+	note := func(cls string, k int) {
+		counts[cls]++
+		if _, ok := first[cls]; !ok {
+			first[cls] = k
+		}
+	}
+	for _, k := range append(offs, size) {
+		backing := make([]byte, size+spare)
+		for i := range backing {
+			backing[i] = sentinel
+		}
+		w := buffer.NewBuffer(backing[:k])
+		var n int64
+		cls := c08Call(func() (err error) { n, err = val.WriteTo(w); return })
+		beyond := -1
+		for i := k; i < len(backing); i++ {
+			if backing[i] != sentinel {
+				beyond = i
+				break
+			}
+		}
+		switch {
+		case strings.HasPrefix(cls, "panic"):
+			note("panic", k)
+		case beyond >= 0:
+			note("wrote-beyond-window", k)
+		case k < size && cls == "ok":
+			note("no-error", k)
+		case k < size && int(n) > k:
+			note("n-exceeds-window", k)
+		case k == size && (cls != "ok" || int(n) != size || !bytes.Equal(backing[:size], enc)):
+			note("exact-window-failed", k)
+		default:
+			note("fine", k)
+		}
+	}
+	detail := ""
+	for _, cls := range []string{"panic", "wrote-beyond-window", "no-error", "n-exceeds-window", "exact-window-failed"} {
+		if counts[cls] > 0 {
+			detail = fmt.Sprintf("object of %d bytes, windows tried %d, outcomes{%s} first-%s at window length %d (capacity %d)", size, len(offs)+1, c08CountsStr(counts), cls, first[cls], size+spare)
+			break
+		}
+	}
+	c.Probe("window_write", id+" WriteTo(buffer.Buffer over backing[:k], len<cap)", kWindow, detail)
+}
+
+// probeReaderSizes: chunking independence includes the size of the caller's bufio.Reader.
+func (g *c08Gen) probeReaderSizes(s c08Spec, id string, tree *c08Gv, enc []byte) {
+	c := g.c
+	h := fnv.New64a()
+	h.Write([]byte(tree.String()))
+	want := fmt.Sprintf("ok %d %016x", len(enc), h.Sum64())
+	sizes := []int{16, 17, 100, 1023, 4097}
+	if c.Thorough() {
+		sizes = append(sizes, 20, 33, 255, 4095, 65537)
+	}
+	for _, sz := range sizes {
+		res := g.child.run(s.goType, "ReadFromSized:"+I(sz), enc)
+		detail, k := "", ""
+		if res != want {
+			cls := strings.Fields(res + " x")[0]
+			detail = fmt.Sprintf("ReadFrom(bufio.NewReaderSize(r, %d)) on a valid %d-byte encoding: %s", sz, len(enc), cls)
+			switch {
+			case cls == "err" && sz < 64 && c08HasEvk[s.ty]:
+				// the 32-byte seed is fetched with Peek(32): needs a buffer of at least 32 bytes
+				k = "C08/buffer.Read/block-larger-than-bufio-buffer"
+			default:
+				k = kPartialElem
+			}
+		}
+		c.Probe("reader_size", id+" bufio.NewReaderSize "+I(sz), k, detail)
 	}
 }
 
